@@ -46,8 +46,9 @@ def system(fam, n, cplx, spec, seed):
         M = P.dense(seed, (n, n), "c16" if cplx else "f8", "spd")
         M = M.astype(np.complex128 if cplx else np.float64)
         return M, None, None
-    lam = K.spectrum(spec, n, seed)
-    A, Q = K.hermitian(seed, n, lam, cplx, "c12" + spec)
+    base, _, scale = spec.partition("@")  # "@tiny" / "@huge": the same spectrum at scale 2^-45 / 2^40 (the contract is relative to ||b||, ||A||)
+    lam = K.spectrum(base, n, seed) * {"": 1.0, "tiny": 2.0**-45, "huge": 2.0**40}[scale]
+    A, Q = K.hermitian(seed, n, lam, cplx, "c12" + base)
     return A, Q, lam
 
 
@@ -318,7 +319,7 @@ def cases(tier, seed):
                             continue
                         out.append(["int", n, cplx, "int", bk, x0k, pk, ms])
     sizes = [8, 25] if tier == "quick" else [8, 25, 60, 200]
-    specs = ["cond1", "cond10", "cond1e3", "three", "clusters", "cond1e6"]
+    specs = ["cond1", "cond10", "cond1e3", "three", "clusters", "cond1e6", "cond10@tiny", "cond10@huge"]
     for n in sizes:
         ms = list(range(0, 2 * n + 1)) if n <= 8 else sorted({0, 1, 2, 5, 10, 25, 2 * n})
         for cplx in (False, True):
